@@ -1,6 +1,7 @@
 package props
 
 import (
+	"sort"
 	"go/constant"
 	"fmt"
 	"go/ast"
@@ -84,6 +85,60 @@ type queueCtx struct {
 
 func (q *queueCtx) norm(e ast.Expr) string {
 	s := types.ExprString(e)
+	// fields by role, wherever they are nested under the receiver (this.fifo.items is the queue's
+	// list, this.fifo.capacity its bound): the element list is the field of type list.LinkedList,
+	// the bound an integer field whose name says capacity
+	if q.fi != nil {
+		info := q.fi.Pkg.TypesInfo
+		repl := map[string]string{}
+		ast.Inspect(e, func(n ast.Node) bool {
+			sel, ok := n.(*ast.SelectorExpr)
+			if !ok {
+				return true
+			}
+			inner, ok := ast.Unparen(sel.X).(*ast.SelectorExpr)
+			if !ok {
+				return true
+			}
+			root := inner
+			for {
+				nx, ok := ast.Unparen(root.X).(*ast.SelectorExpr)
+				if !ok {
+					break
+				}
+				root = nx
+			}
+			if id, ok := ast.Unparen(root.X).(*ast.Ident); !ok || id.Name != q.recv {
+				return true
+			}
+			fv, ok := info.ObjectOf(sel.Sel).(*types.Var)
+			if !ok || !fv.IsField() {
+				return true
+			}
+			digit := ""
+			if nm := sel.Sel.Name; len(nm) > 0 && nm[len(nm)-1] >= '0' && nm[len(nm)-1] <= '9' {
+				digit = nm[len(nm)-1:]
+			}
+			t := fv.Type()
+			if pt, ok := t.(*types.Pointer); ok {
+				t = pt.Elem()
+			}
+			if nt, ok := t.(*types.Named); ok && nt.Obj().Name() == "LinkedList" {
+				repl[types.ExprString(sel)] = q.recv + ".queue" + digit
+			} else if b, ok := t.Underlying().(*types.Basic); ok && b.Info()&types.IsInteger != 0 && strings.Contains(strings.ToLower(sel.Sel.Name), "capacity") {
+				repl[types.ExprString(sel)] = q.recv + ".capacity" + digit
+			}
+			return true
+		})
+		keys := make([]string, 0, len(repl))
+		for k := range repl {
+			keys = append(keys, k)
+		}
+		sort.Slice(keys, func(i, j int) bool { return len(keys[i]) > len(keys[j]) })
+		for _, k := range keys {
+			s = strings.ReplaceAll(s, k, repl[k])
+		}
+	}
 	s = strings.ReplaceAll(s, q.recv+".", "")
 	s = reQueueSize.ReplaceAllString(s, "size$1")
 	s = strings.ReplaceAll(s, " ", "")
